@@ -7,7 +7,7 @@ d = tempfile.mkdtemp(prefix='verif-replay-')
 inp = os.path.join(d, 'in.txt'); open(inp, 'w').write('\n'.join(map(str, m['inputs'])) + '\n')
 exe = os.path.join(d, 'a.out')
 extra = [os.path.join(V, 'harness', x) for x in m.get('native_extra', [])]
-cmd = ['g++', '-std=c++17', '-I/repo', '-I' + os.path.join(V, 'harness'), '-DTLX_VERIF', '-O1', '-g', '-fsanitize=address,undefined', '-w', '-pthread',
+cmd = ['g++', '-std=c++17', '-I/repo', '-I' + os.path.join(V, 'harness'), '-DTLX_VERIF', '-O1', '-g', '-fsanitize=address,undefined', '-fno-lifetime-dse', '-w', '-pthread',
        '-DVERIF_ENTRY=' + m['entry'], '-DVERIF_NATIVE'] + ['-D' + x for x in m['defs']] + [os.path.join(V, 'harness', m['harness'])] + \
       ['/repo/' + r for r in m['link']] + [os.path.join(V, 'engine/rt/native_rt.cpp')] + extra + ['-o', exe]
 subprocess.check_call(cmd)
